@@ -606,106 +606,55 @@ func crossingConventionRule(p *core.Program, r *core.Report, rule string) {
 		}
 		return false
 	}
-	// eval returns (value, known)
-	var eval func(v ssa.Value, s1, s2 int) (bool, bool)
-	eval = func(v ssa.Value, s1, s2 int) (bool, bool) {
-		switch x := v.(type) {
-		case *ssa.UnOp:
-			if x.Op == token.NOT {
-				b, ok := eval(x.X, s1, s2)
-				return !b, ok
-			}
-		case *ssa.BinOp:
-			kx, ky := kind(x.X), kind(x.Y)
-			sign := func(k string) (int, bool) {
-				switch k {
-				case "y1":
-					return s1, true
-				case "y2":
-					return s2, true
-				}
-				return 0, false
-			}
-			if ky == "py" {
-				if s, ok := sign(kx); ok {
-					return cmpSign(x.Op, s), true
-				}
-			}
-			if kx == "py" {
-				if s, ok := sign(ky); ok {
-					return cmpSign(eng.SwapOp(x.Op), s), true
-				}
-			}
-			if x.Op == token.EQL || x.Op == token.NEQ {
-				if _, isBool := x.X.Type().Underlying().(*types.Basic); isBool && x.X.Type().Underlying().(*types.Basic).Kind() == types.Bool {
-					a, oka := eval(x.X, s1, s2)
-					b, okb := eval(x.Y, s1, s2)
-					if oka && okb {
-						return (a == b) == (x.Op == token.EQL), true
-					}
-				}
-			}
-		case *ssa.Phi:
-			// short-circuit && / || lowered to phis of constants and conditions
-			res, known, first := false, true, true
-			for _, e := range x.Edges {
-				var b, ok bool
-				if c, isC := e.(*ssa.Const); isC && c.Value != nil {
-					b, ok = c.Value.String() == "true", true
-				} else {
-					b, ok = eval(e, s1, s2)
-				}
-				if !ok {
-					known = false
-				}
-				if first {
-					res, first = b, false
-				} else if b != res {
-					known = false
-				}
-			}
-			return res, known && !first
-		}
-		return false, false
-	}
-	var incs []ssa.Instruction
-	for _, b := range fn.Blocks {
-		for _, in := range b.Instrs {
-			if st, ok := in.(*ssa.Store); ok {
-				if _, path := fieldRoot(st.Addr); path == ".crossingCount" {
-					incs = append(incs, in)
-				}
-			}
-		}
-	}
-	if len(incs) == 0 {
-		r.Bad(rule, short(fn), p.Pos(fn.Pos()), "countSegment never counts a crossing")
-		return
-	}
+	_ = cmpSign
+	// CONSTEVAL with representative ordinates: p.y = 10 and p1.y, p2.y in {9, 10, 11}; x ordinates and everything
+	// else stay unknown, so every condition that does not compare those ordinates may go either way. Helpers the
+	// predicate was moved into are evaluated with the bound ordinates as arguments.
 	union := map[[2]int]bool{}
+	nInc := 0
 	for s1 := -1; s1 <= 1; s1++ {
 		for s2 := -1; s2 <= 1; s2++ {
-			blocked := eng.EdgeSet{}
-			for _, b := range fn.Blocks {
-				ifi := eng.BlockIf(b)
-				if ifi == nil {
-					continue
+			ev := &eng.ConstEval{MaxDepth: 4}
+			ev.Inline = func(f *ssa.Function) bool { return f.Pkg == fn.Pkg }
+			ev.Override = func(f *ssa.Function, v ssa.Value, args []eng.CVal) (eng.CVal, bool) {
+				if f != fn {
+					return eng.CVal{}, false
 				}
-				if val, known := eval(ifi.Cond, s1, s2); known {
-					if val {
-						blocked[[2]int{b.Index, 1}] = true
-					} else {
-						blocked[[2]int{b.Index, 0}] = true
+				switch kind(v) {
+				case "y1":
+					return eng.ConstV(constant.MakeFloat64(float64(10 + s1))), true
+				case "y2":
+					return eng.ConstV(constant.MakeFloat64(float64(10 + s2))), true
+				case "py":
+					return eng.ConstV(constant.MakeFloat64(10)), true
+				}
+				return eng.CVal{}, false
+			}
+			top := ev.Run(fn, nil)
+			eng.WalkReached(top, func(act *eng.CEResult, in ssa.Instruction) {
+				if st, ok := in.(*ssa.Store); ok {
+					if _, path := fieldRoot(st.Addr); path == ".crossingCount" {
+						union[[2]int{s1, s2}] = true
+					}
+				}
+			})
+		}
+	}
+	for _, f := range pkgFuncs(p, "xy/internal/raycrossing") {
+		for _, b := range f.Blocks {
+			for _, in := range b.Instrs {
+				if st, ok := in.(*ssa.Store); ok {
+					if _, path := fieldRoot(st.Addr); path == ".crossingCount" {
+						nInc++
 					}
 				}
 			}
-			reach := eng.Reachable(fn.Blocks[0], blocked)
-			for _, in := range incs {
-				if reach[in.Block()] {
-					union[[2]int{s1, s2}] = true
-				}
-			}
 		}
+	}
+	incs := make([]int, nInc)
+	if nInc == 0 {
+		r.Bad(rule, short(fn), p.Pos(fn.Pos()), "countSegment never counts a crossing")
+		return
 	}
 	convA := map[[2]int]bool{{1, 0}: true, {1, -1}: true, {0, 1}: true, {-1, 1}: true}
 	convB := map[[2]int]bool{{0, -1}: true, {1, -1}: true, {-1, 0}: true, {-1, 1}: true}
